@@ -11,7 +11,8 @@ MODULE = 'Flowdyn.Props.C03'
 THEOREMS = core.theorems_in(['C03.lean'], 'Flowdyn.C03') + ['Flowdyn.C16.%s_compatible' % b for b in
             ('insub', 'insup', 'outsub', 'outsub_qtot', 'outsub_nrcbc', 'outsub_rh')] + \
            ['Flowdyn.C11.grad_const', 'Flowdyn.C11.recL_const', 'Flowdyn.C11.recR_const', 'Flowdyn.C11.limzero_all']
-AUDIT_IMPORTS = ['Flowdyn.Props.C16', 'Flowdyn.Props.C11']
+AUDIT_IMPORTS = ['Flowdyn.Props.C16', 'Flowdyn.Props.C11', 'Flowdyn.Props.C07b']
+THEOREMS = THEOREMS + ['Flowdyn.C07.loop_preserves', 'Flowdyn.C07.run_preserves', 'Flowdyn.C07.run_preserves_data']
 PARTIAL = {"implicit/2D": "fixed-point theorems for the implicit family (injectivity hypothesis) and for the 2D pipeline are pending; both are covered by the sweep"}
 LEVEL_NOTE = "zero residual of a uniform state proved for any mesh/reconstruction/pointwise flux and boundary kernels fixing the state (C16 compatibility theorems); explicit integrators fix zeros of the operator"
 
